@@ -11,12 +11,12 @@ Definition periodic_doc : load_case :=
   mkLC (Some [mkDP (Some 0) None (Some [mkDS (Some [(0, 0, 1)]) (Some 1) (Some 100)])])
        (Some [mkDG (Some 0) (Some [mkDN 0 (Some 0) None false None false None]) (Some 0)
                    (Some 5) (Some 300) None None None None None])
-       (Some (mkRF (mkF 0 0) (mkF 0 0) 0 0 false 1 (-1) 0 (2 ^ 63 - 1) 1000)) [] [] [].
+       (Some (mkRF (mkF 0 0) (mkF 0 0) 0 0 false 1 (-1) 0 (2 ^ 63 - 1) 1000 false)) [] [] [].
 
 Lemma loader_periodic_int_horizon_refused :
   exists ls, load_workload (lc_profiles periodic_doc) (lc_graphs periodic_doc) (lc_flags periodic_doc) = Ok ls /\
     (exists l, In l ls /\ p_type (jg_policy (l_jg l)) = PERIODIC) /\
-    forall us_, populate ls (mkIF 0 (2 ^ 63 - 1) (0, 0)) None [] [] us_ 0 = Err 4.
+    forall us_, populate ls (mkIF 0 (2 ^ 63 - 1) (0, 0) false) None [] [] us_ 0 = Err 4.
 Proof.
   eexists. split; [vm_compute; reflexivity|]. split.
   - eexists. split; [left; reflexivity|reflexivity].
@@ -26,7 +26,7 @@ Qed.
 (* as loaded today: releases at 5, 305, 605, 905 for --loop_timeout=1000 *)
 Lemma loader_periodic_instantiated :
   exists ls tgs, load_workload (lc_profiles periodic_doc) (lc_graphs periodic_doc) (lc_flags periodic_doc) = Ok ls /\
-    populate ls (mkIF 0 (2 ^ 63 - 1) (0, 0)) (lc_completion periodic_doc) [] []
+    populate ls (mkIF 0 (2 ^ 63 - 1) (0, 0) false) (lc_completion periodic_doc) [] []
              [mkF 0 0; mkF 0 0; mkF 0 0; mkF 0 0; mkF 0 0; mkF 0 0; mkF 0 0; mkF 0 0] 0 = Ok tgs /\
     map (fun x => map (fun tg => map (fun t => et_time (t_release t)) (tg_tasks tg)) (snd x)) tgs = [[[5]; [305]; [605]; [905]]].
 Proof. eexists. eexists. split; [vm_compute; reflexivity|]. split; [vm_compute; reflexivity|]. reflexivity. Qed.
